@@ -86,7 +86,7 @@ DT = {1: 'uint8', 2: 'int16', 4: 'float32', 8: 'float64'}
 def run(ctx):
     rng = ctx.rng
     ctx.check_theorems()
-    ctx.check_generated(['blocks', 'kcalls', 'klog', 'kblocks'])
+    ctx.check_generated(['blocks', 'kcalls', 'klog', 'kblocks', 'crop'])
 
     # -------- (K1) get_buf_count vs Blocks.buf_count, exhaustive box --------
     box = []
